@@ -1139,10 +1139,10 @@ var ruleDocD9 = &Rule{
 }
 
 // ---------------------------------------------------------------------------------------------
-// KEY/M5: removing one file from the name index removes that file only
+// KEY/M6: removing one file from the name index removes that file only
 
-var ruleKeyM5 = &Rule{
-	Name:    "KEY/M5-index-removal-keyed-by-file",
+var ruleKeyM6 = &Rule{
+	Name:    "KEY/M6-index-removal-keyed-by-file",
 	NeedSSA: true,
 	Text: "FileIndexInfo.RemoveOneFile deletes from the name buckets (fileNameMap / freFileNameMap: name -> set of full paths) with the removed file's full path as key; " +
 		"a delete that drops a whole bucket (key: the base name) is tolerated only behind a test that the bucket has become empty (len(bucket) == 0): other files " +
@@ -1150,63 +1150,88 @@ var ruleKeyM5 = &Rule{
 	Run: func(c *Ctx) []Ob {
 		f := c.SSAFunc(commonPkg, "FileIndexInfo", "RemoveOneFile")
 		if f == nil || len(f.Params) < 2 {
-			return []Ob{{Key: "KEY/M5:slots", Verdict: UNDECIDED, Note: "slot unresolved: FileIndexInfo.RemoveOneFile"}}
+			return []Ob{{Key: "KEY/M6:slots", Verdict: UNDECIDED, Note: "slot unresolved: FileIndexInfo.RemoveOneFile"}}
 		}
 		var obs []Ob
 		nDel := 0
 		file := f.Params[1]
+		// the function itself and the private helpers it calls (arguments followed back to RemoveOneFile)
+		type frame struct {
+			fn   *ssa.Function
+			site *ssa.Call // call in RemoveOneFile (nil for RemoveOneFile itself)
+		}
+		frames := []frame{{f, nil}}
 		for _, b := range f.Blocks {
 			for _, ins := range b.Instrs {
-				call, ok := ins.(*ssa.Call)
-				if !ok {
-					continue
-				}
-				bi, ok := call.Call.Value.(*ssa.Builtin)
-				if !ok || bi.Name() != "delete" {
-					continue
-				}
-				nDel++
-				key := fmt.Sprintf("KEY/M5:RemoveOneFile:delete#%d", nDel)
-				m, k := call.Call.Args[0], call.Call.Args[1]
-				if k == ssa.Value(file) {
-					obs = append(obs, Ob{Key: key, Site: c.Pos(call.Pos()), Verdict: OK, Note: "keyed by the removed file"})
-					continue
-				}
-				// whole bucket: must be proven empty
-				outer := false
-				if ld, ok := m.(*ssa.UnOp); ok && ld.Op == token.MUL {
-					if fa, ok := ld.X.(*ssa.FieldAddr); ok && fa.X == ssa.Value(f.Params[0]) {
-						outer = true
+				if call, ok := ins.(*ssa.Call); ok {
+					if g := call.Call.StaticCallee(); g != nil && g.Blocks != nil && g.Pkg == f.Pkg && g.Object() != nil && !g.Object().Exported() {
+						frames = append(frames, frame{g, call})
 					}
-				}
-				empty := false
-				for _, e0 := range dominatingEdges(b) {
-					e := stripNot(e0)
-					bo, ok := e.cond.(*ssa.BinOp)
-					if !ok {
-						continue
-					}
-					_, xl := isLenCall(bo.X)
-					cst, yc := bo.Y.(*ssa.Const)
-					if xl && yc && cst.Value != nil && cst.Value.Kind() == constant.Int && cst.Int64() == 0 {
-						if (bo.Op == token.EQL && e.truth) || (bo.Op == token.NEQ && !e.truth) || (bo.Op == token.GTR && !e.truth) || (bo.Op == token.LEQ && e.truth) {
-							empty = true
-						}
-					}
-				}
-				switch {
-				case outer && empty:
-					obs = append(obs, Ob{Key: key, Site: c.Pos(call.Pos()), Verdict: OK, Note: "drops a bucket proven empty"})
-				case outer:
-					obs = append(obs, Ob{Key: key, Site: c.Pos(call.Pos()), Verdict: VIOLATION,
-						Note: "a whole name bucket is dropped without a test that it is empty: a file of the same name in another directory disappears from the index with it"})
-				default:
-					obs = append(obs, Ob{Key: key, Site: c.Pos(call.Pos()), Verdict: VIOLATION,
-						Note: "delete from a name bucket with a key that is not the removed file"})
 				}
 			}
 		}
-		obs = append(obs, floor("KEY/M5", "deletes in RemoveOneFile", nDel, 2))
+		actual := func(fr frame, v ssa.Value) ssa.Value {
+			if p, ok := v.(*ssa.Parameter); ok && fr.site != nil {
+				if i := paramIndex(fr.fn, p); i >= 0 && i < len(fr.site.Call.Args) {
+					return fr.site.Call.Args[i]
+				}
+			}
+			return v
+		}
+		for _, fr := range frames {
+			for _, b := range fr.fn.Blocks {
+				for _, ins := range b.Instrs {
+					call, ok := ins.(*ssa.Call)
+					if !ok {
+						continue
+					}
+					bi, ok := call.Call.Value.(*ssa.Builtin)
+					if !ok || bi.Name() != "delete" {
+						continue
+					}
+					nDel++
+					key := fmt.Sprintf("KEY/M6:RemoveOneFile:delete#%d", nDel)
+					m, k := actual(fr, call.Call.Args[0]), actual(fr, call.Call.Args[1])
+					if k == ssa.Value(file) {
+						obs = append(obs, Ob{Key: key, Site: c.Pos(call.Pos()), Verdict: OK, Note: "keyed by the removed file"})
+						continue
+					}
+					// whole bucket: must be proven empty
+					outer := false
+					if ld, ok := m.(*ssa.UnOp); ok && ld.Op == token.MUL {
+						if fa, ok := ld.X.(*ssa.FieldAddr); ok && fa.X == ssa.Value(f.Params[0]) {
+							outer = true
+						}
+					}
+					empty := false
+					for _, e0 := range dominatingEdges(b) {
+						e := stripNot(e0)
+						bo, ok := e.cond.(*ssa.BinOp)
+						if !ok {
+							continue
+						}
+						_, xl := isLenCall(bo.X)
+						cst, yc := bo.Y.(*ssa.Const)
+						if xl && yc && cst.Value != nil && cst.Value.Kind() == constant.Int && cst.Int64() == 0 {
+							if (bo.Op == token.EQL && e.truth) || (bo.Op == token.NEQ && !e.truth) || (bo.Op == token.GTR && !e.truth) || (bo.Op == token.LEQ && e.truth) {
+								empty = true
+							}
+						}
+					}
+					switch {
+					case outer && empty:
+						obs = append(obs, Ob{Key: key, Site: c.Pos(call.Pos()), Verdict: OK, Note: "drops a bucket proven empty"})
+					case outer:
+						obs = append(obs, Ob{Key: key, Site: c.Pos(call.Pos()), Verdict: VIOLATION,
+							Note: "a whole name bucket is dropped without a test that it is empty: a file of the same name in another directory disappears from the index with it"})
+					default:
+						obs = append(obs, Ob{Key: key, Site: c.Pos(call.Pos()), Verdict: VIOLATION,
+							Note: "delete from a name bucket with a key that is not the removed file"})
+					}
+				}
+			}
+		}
+		obs = append(obs, floor("KEY/M6", "deletes in RemoveOneFile", nDel, 2))
 		return obs
 	},
 }
@@ -1309,6 +1334,166 @@ var ruleDetComparatorKey = &Rule{
 			}
 		}
 		obs = append(obs, floor("DET/comparator-key", "multi-key comparators", n, 5))
+		return obs
+	},
+}
+
+// ---------------------------------------------------------------------------------------------
+// VISITED/sibling-skip: an element already seen is skipped, the remaining siblings are still processed
+
+var ruleVisitedSiblingSkip = &Rule{
+	Name:    "VISITED/sibling-skip",
+	NeedSSA: true,
+	Text: "inside a loop over sibling declarations / parents / members, the outcome `already seen` of a visited-set test (the tests the termination argument relies on) " +
+		"leads to the next iteration, not out of the loop: the visited set exists to cut cycles and duplicates, and an element reached before over another path says " +
+		"nothing about the siblings that follow it (the declarations of one class in other files, the other parents of a class) — leaving the loop drops their members",
+	Run: func(c *Ctx) []Ob {
+		var obs []Ob
+		ge := newGuardEngine(c)
+		n := 0
+		for _, f := range c.ModFns() {
+			if f.Blocks == nil {
+				continue
+			}
+			evs := ge.eventsOf(f)
+			if len(evs) == 0 {
+				continue
+			}
+			loops := allLoops(f)
+			ord := 0
+			for _, ev := range evs {
+				if ev.insert || ev.found == nil || ev.instr == nil || ev.instr.Block() == nil {
+					continue
+				}
+				// a visited set: the same function also inserts into the set it tests
+				inserts := false
+				for _, e2 := range evs {
+					if e2.insert && e2.gl.String() == ev.gl.String() {
+						inserts = true
+					}
+				}
+				if !inserts {
+					continue
+				}
+				// innermost loop containing the test
+				var in *loopInfo
+				for i := range loops {
+					l := &loops[i]
+					if l.body[ev.instr.Block()] && (in == nil || len(l.body) < len(in.body)) {
+						in = l
+					}
+				}
+				if in == nil {
+					continue
+				}
+				n++
+				ord++
+				key := fmt.Sprintf("VISITED/sibling-skip:%s:test#%d", fnKey(f), ord)
+				if in.body[ev.found] || ev.found == in.header {
+					obs = append(obs, Ob{Key: key, Site: c.Pos(ev.instr.Pos()), Verdict: OK, Note: "already-seen outcome stays in the loop"})
+				} else {
+					obs = append(obs, Ob{Key: key, Site: c.Pos(ev.instr.Pos()), Verdict: VIOLATION,
+						Note: "the already-seen outcome of this visited-set test leaves the loop over the siblings: the elements after a repeated one are never looked at"})
+				}
+			}
+		}
+		obs = append(obs, floor("VISITED/sibling-skip", "visited-set tests inside loops", n, 30))
+		return obs
+	},
+}
+
+// ---------------------------------------------------------------------------------------------
+// LOC/ascii-advance: the column-advancing helper is not fed bytes known to be no characters of their own
+
+
+var ruleLocAsciiAdvance = &Rule{
+	Name:    "LOC/ascii-advance",
+	NeedSSA: true,
+	Text: "Lexer.next(n) drops n bytes of the input and adds n to the character cursor, which is right only when the n bytes are n characters. A call next(k) with a " +
+		"constant k must therefore not sit behind a test that one of those k bytes equals a constant ≥ 0x80 (chunk[j] == c with j < k, or a HasPrefix with such a byte " +
+		"among the first k): a byte ≥ 0x80 is never a character of its own in UTF-8 or GBK, so every column on that line would be shifted (the byte-order mark is the " +
+		"instance: three bytes, no column)",
+	Run: func(c *Ctx) []Ob {
+		next := c.SSAFunc(lexerPkgPath, "Lexer", "next")
+		if next == nil {
+			return []Ob{{Key: "LOC/ascii-advance:slots", Verdict: UNDECIDED, Note: "slot unresolved: Lexer.next"}}
+		}
+		var obs []Ob
+		n := 0
+		isChunkLoad := func(v ssa.Value) bool {
+			ld, ok := v.(*ssa.UnOp)
+			if !ok || ld.Op != token.MUL {
+				return false
+			}
+			fa, ok := ld.X.(*ssa.FieldAddr)
+			return ok && fieldName(fa.X.Type(), fa.Field) == "chunk"
+		}
+		for _, f := range c.ModFns() {
+			if f.Blocks == nil || f.Pkg == nil || f.Pkg.Pkg.Path() != lexerPkgPath {
+				continue
+			}
+			ord := 0
+			for _, b := range f.Blocks {
+				for _, ins := range b.Instrs {
+					call, ok := ins.(*ssa.Call)
+					if !ok || call.Call.StaticCallee() != next || len(call.Call.Args) < 2 {
+						continue
+					}
+					kc, ok := call.Call.Args[1].(*ssa.Const)
+					if !ok || kc.Value == nil || kc.Value.Kind() != constant.Int {
+						continue
+					}
+					k := kc.Int64()
+					n++
+					ord++
+					key := fmt.Sprintf("LOC/ascii-advance:%s:next#%d", fnKey(f), ord)
+					bad := ""
+					for _, e0 := range dominatingEdges(b) {
+						e := stripNot(e0)
+						switch x := e.cond.(type) {
+						case *ssa.BinOp:
+							if !((x.Op == token.EQL && e.truth) || (x.Op == token.NEQ && !e.truth)) {
+								continue
+							}
+							for _, pr := range [][2]ssa.Value{{x.X, x.Y}, {x.Y, x.X}} {
+								ix, ok1 := pr[0].(*ssa.Index)
+								cv, ok2 := pr[1].(*ssa.Const)
+								if !ok1 || !ok2 || cv.Value == nil || cv.Value.Kind() != constant.Int || !isChunkLoad(ix.X) {
+									continue
+								}
+								jc, ok := ix.Index.(*ssa.Const)
+								if !ok || jc.Value == nil || jc.Value.Kind() != constant.Int {
+									continue
+								}
+								if jc.Int64() < k && cv.Int64() >= 0x80 {
+									bad = fmt.Sprintf("chunk[%d] == 0x%X", jc.Int64(), cv.Int64())
+								}
+							}
+						case *ssa.Call:
+							g := x.Call.StaticCallee()
+							if g == nil || g.Pkg == nil || g.Pkg.Pkg.Path() != "strings" || g.Name() != "HasPrefix" || !e.truth {
+								continue
+							}
+							if pc, ok := x.Call.Args[1].(*ssa.Const); ok && pc.Value != nil && pc.Value.Kind() == constant.String && isChunkLoad(x.Call.Args[0]) {
+								p := constant.StringVal(pc.Value)
+								for j := 0; j < len(p) && int64(j) < k; j++ {
+									if p[j] >= 0x80 {
+										bad = fmt.Sprintf("HasPrefix(chunk, %q)", p)
+									}
+								}
+							}
+						}
+					}
+					if bad != "" {
+						obs = append(obs, Ob{Key: key, Site: c.Pos(call.Pos()), Verdict: VIOLATION,
+							Note: fmt.Sprintf("next(%d) adds %d columns for bytes known not to be %d characters (%s holds on every path to this call)", k, k, k, bad)})
+					} else {
+						obs = append(obs, Ob{Key: key, Site: c.Pos(call.Pos()), Verdict: OK})
+					}
+				}
+			}
+		}
+		obs = append(obs, floor("LOC/ascii-advance", "constant advances of the lexer cursor", n, 39))
 		return obs
 	},
 }
